@@ -65,6 +65,73 @@ def parallel_model(mexe, header, cases, jobs):
     return mh, mc, ""
 
 
+def build_patched_harness():
+    """harness/client built against a scratch copy of the pinned golang.org/x/mod in which the loop
+    'Authenticate full tiles against their parents' of tlog.TileHashReader starts where x/mod v0.41.0
+    starts it (one line). Nothing in /repo or in the module cache is modified (go.mod copy + replace).
+    Returns (exe or None, note)."""
+    gdir = os.path.join(L.BUILD, "go")
+    ov = os.path.join(gdir, "overlay_%s.json" % AREA)
+    exe = os.path.join(L.BUILD, "bin", "harness_%s_patched" % AREA)
+    mod = os.path.join(gdir, "go_c12_patched.mod")
+    with L.Lock("go"):
+        shutil.copy(os.path.join(L.REPO, "go.mod"), mod)
+        shutil.copy(os.path.join(L.REPO, "go.sum"), mod[:-4] + ".sum")
+        rc, out, _ = L.run(["go", "list", "-m", "-modfile=" + mod, "-f", "{{.Dir}}", "golang.org/x/mod"], cwd=L.REPO, timeout=300)
+        src = out.strip().split("\n")[-1] if rc == 0 else ""
+        tile = os.path.join(src, "sumdb", "tlog", "tile.go")
+        if not os.path.exists(tile):
+            return None, "could not locate golang.org/x/mod: " + out[-300:]
+        text = open(tile).read()
+        old = "for i := len(stx); i < len(tiles); i++ {"
+        if text.count(old) != 1:
+            return None, "the pinned golang.org/x/mod does not contain the defective loop"
+        dst = os.path.join(gdir, "c12_xmod_patched")
+        if os.path.isdir(dst):
+            L.run(["chmod", "-R", "u+w", dst]); shutil.rmtree(dst, ignore_errors=True)
+        shutil.copytree(src, dst)
+        L.run(["chmod", "-R", "u+w", dst])
+        with open(os.path.join(dst, "sumdb", "tlog", "tile.go"), "w") as f:
+            f.write(text.replace(old, "for i := stxTileOrder[len(stx)-1] + 1; i < len(tiles); i++ {"))
+        with open(mod, "a") as f:
+            f.write("\nreplace golang.org/x/mod => %s\n" % dst)
+        rc, out, _ = L.run(["go", "build", "-tags", "verif", "-modfile=" + mod, "-overlay=" + ov, "-o", exe,
+                            "./internal/verifharness/" + AREA], cwd=L.REPO, timeout=1500)
+    if rc != 0:
+        return None, "build failed: " + out[-2000:]
+    return exe, "golang.org/x/mod (pinned version) with the v0.41.0 loop start, via replace in a scratch go.mod"
+
+
+def patched_run(res, mexe, seed, jobs, extra=()):
+    """the same tamper stream against the corrected reader: every monitor must hold and the model
+    (Client/Reader.v with fixed = true) must reproduce every line"""
+    info = {"ran": False}
+    exe, note = build_patched_harness()
+    info["note"] = note
+    if exe is None:
+        return info
+    d = tempfile.mkdtemp(prefix="c12p-", dir=os.path.join(L.BUILD, "scratch"))
+    try:
+        rc, out, dt = L.run([exe, "-seed=%d" % seed, "-dir=" + d] + list(extra), timeout=3000)
+    finally:
+        shutil.rmtree(d, ignore_errors=True)
+    lines = [l for l in out.split("\n") if "|=>|" in l]
+    mons = [l for l in lines if l.startswith("mon_")]
+    work = [l for l in lines if not l.startswith("mon_")]
+    bad = [l for l in mons if D.split_line(l)[2] != "holds"]
+    header = [l for l in work if l.split("|", 1)[0] in HEADER_OPS]
+    cases = [l for l in work if l.split("|", 1)[0] not in HEADER_OPS]
+    mh, mc, err = parallel_model(mexe, header, cases, jobs)
+    diffs = L.diff_lines(header + cases, mh + mc) if mh is not None else [(-1, "model did not run", err)]
+    info.update({"ran": True, "reader": [D.split_line(l)[2] for l in work if l.startswith("reader|")],
+                 "cases": len(cases), "monitors": len(mons), "monitor_failures": len(bad), "model_impl_differences": len(diffs)})
+    if rc != 0 or bad or diffs:
+        p = L.write_replay(PROP, "patched_dependency.txt",
+                           "run against the corrected tile hash reader (seed=%d): rc=%d, %d failing monitors, %d model differences\n%s\n%s\n" % (seed, rc, len(bad), len(diffs), "\n".join(x[:2000] for x in bad[:3]), "\n".join("%s\n%s" % (a[:2000], b[:2000]) for (_, a, b) in diffs[:3])))
+        res.violation(p, "patched-dependency run: %d failing monitors, %d model differences" % (len(bad), len(diffs)), no_input=not bad)
+    return info
+
+
 def coq_plan_case(line, sizes):
     op, a, r = D.split_line(line)
     if op == "plan" and a[0] in sizes and sizes[a[0]] <= 600:
@@ -178,6 +245,11 @@ def main(tier, seed, replay):
                 ncross = D.vm_crosscheck(res, PROP, rnd.sample(plans, min(len(plans), 25 if not thorough else 200)),
                                          "From SL Require Import Client.Run.")
 
+    # the same stream against the corrected reader (thorough tier, or VERIF_C12_PATCHED=1)
+    patched = None
+    if hexe and mexe and reader.endswith("skip") and (thorough or os.environ.get("VERIF_C12_PATCHED")):
+        patched = patched_run(res, mexe, seed, max(2, min(6, L.NCPU)), extra=(['-thorough', '-big=13000'] if thorough else []))
+
     # the known defect of the pinned dependency
     dev_info = None
     if deviations:
@@ -213,7 +285,7 @@ def main(tier, seed, replay):
         "traces_validated_against_impl": len(work), "impl_property_monitors": st.get("monitors", 0),
         "monitor_failures": st.get("monitor_failures", 0), "monitor_failures_attributed_to_known_defect": len(deviations),
         "model_impl_differences": st.get("diffs", 0), "vm_compute_crosschecked": ncross,
-        "tile_hash_reader_under_test": reader, "deviation": dev_info,
+        "tile_hash_reader_under_test": reader, "deviation": dev_info, "patched_dependency_run": patched,
         "op_distribution": st.get("ops", {}), "result_distribution": st.get("results", {}),
         "harness_stats": stats,
         "uncovered_fields_limit": {
